@@ -1494,7 +1494,7 @@ def loop_shape(f, loop):
             vid = vid_of(v)
             other = [n for n in walk(body) if n["k"] in ("UnaryOperator", "BinaryOperator", "CompoundAssignOperator") and
                      (n.get("op") in ("++", "--", "=") or n["k"] == "CompoundAssignOperator") and vid_of(kids(n)[0]) == vid]
-            return dict(var=vid, name=v.get("name"), dir="down", bound=start_of(vid), start=None, rel="--", stepped=not other and inc is None)
+            return dict(var=vid, name=v.get("name"), dir="down", bound=start_of(vid), start=None, rel="--", stepped=not other and inc is None, values="below")
         return None
     if cond["k"] == "BinaryOperator" and cond.get("op") in (">", "!=") and cv(kids(cond)[1]) == 0 and vid_of(kids(cond)[0]) is not None:
         # counting down to zero:  for (v = N; v > 0; --v)  /  while (v > 0) { ...; --v; }   (N iterations)
@@ -1511,7 +1511,24 @@ def loop_shape(f, loop):
                     break
                 if a["k"] in ("IfStmt", "SwitchStmt", "ForStmt", "WhileStmt", "DoStmt", "CXXForRangeStmt", "ConditionalOperator"):
                     nested = True
-            return dict(var=vid, name=v.get("name"), dir="down", bound=start_of(vid), start=None, rel=">0", stepped=not writes and not nested)
+            # values seen by the body: N-1..0 when the decrement is the first thing the body does, N..1 when it comes last
+            tops_ = [x for x in (kids(body) if body["k"] == "CompoundStmt" else [body]) if x is not None]
+            first_ = bool(tops_) and loop["k"] != "ForStmt" or (loop["k"] == "ForStmt" and inc is None)
+            first_ = first_ and bool(tops_) and any(x["i"] == decs[0]["i"] for x in walk(tops_[0])) and tops_[0]["k"] in ("UnaryOperator", "CompoundAssignOperator")
+            return dict(var=vid, name=v.get("name"), dir="down", bound=start_of(vid), start=None, rel=">0", stepped=not writes and not nested,
+                        values="below" if first_ else "upto")
+    if cond["k"] == "BinaryOperator" and cond.get("op") == ">=" and cv(kids(cond)[1]) == 0 and vid_of(kids(cond)[0]) is not None:
+        # for (v = S; v >= 0; --v): the body sees S, S-1, ..., 0 (signed v)
+        v = strip(kids(cond)[0])
+        vid = vid_of(v)
+        decs = [n for n in walk(loop) if (n["k"] == "UnaryOperator" and n.get("op") == "--" and vid_of(kids(n)[0]) == vid) or
+                (n["k"] == "CompoundAssignOperator" and n.get("op") == "-=" and vid_of(kids(n)[0]) == vid and cv(kids(n)[1]) == 1)]
+        writes = [n for n in walk(body) if n["k"] == "BinaryOperator" and n.get("op") == "=" and vid_of(kids(n)[0]) == vid]
+        ups = [n for n in walk(loop) if n["k"] == "UnaryOperator" and n.get("op") == "++" and vid_of(kids(n)[0]) == vid]
+        last_ = loop["k"] == "ForStmt" and inc is not None and len(decs) == 1 and any(x["i"] == decs[0]["i"] for x in walk(inc))
+        if last_ and not ups and not writes:
+            return dict(var=vid, name=v.get("name"), dir="down", bound=None, start=start_of(vid), rel=">=0", stepped=True, values="from-start")
+        return None
     if cond["k"] != "BinaryOperator" or cond.get("op") not in ("<", "!=", "<="):
         return None
     v = strip(kids(cond)[0])
